@@ -18,7 +18,7 @@ set_option linter.unusedVariables false
 
   The handler (1) runs the Lean model on the observed pre-state and compares result class, error code,
   post-state and auctions (MISMATCH), and (2) evaluates the property predicates on the implementation's
-  own observation (PREDFAIL <C08_name> <tag>).
+  own observation (PREDFAIL <C08_name> <tag>), independently of (1): a PREDFAIL outranks a MISMATCH.
 -/
 namespace Drv.C08
 open KV KV.Hard
@@ -272,7 +272,24 @@ def handle : Handler
             predfail "C08_supply_index_monotone" "index-below-one-hook-panic"
           else mismatch "result" (resS res) result
         else
-        if resS res != result then mismatch "result" (resS res) result
+        -- (2) first: the property predicates on the implementation's own observation, whether or not the model
+        -- agrees with it (a PREDFAIL outranks a MISMATCH on the same case)
+        let implPred : String :=
+          if result != "ok" then "ok" else
+          match st? postS with
+          | none => "ok"
+          | some post =>
+            match kind with
+            | "begin" => predBegin nd pre post spre spost
+            | "borrow" => if !frameOk nu nd pre post [a] then predfail "C08_frame" "borrow-touched-other-user" else predBorrow cfg nd post a coins probe
+            | "withdraw" => if !frameOk nu nd pre post [a] then predfail "C08_frame" "withdraw-touched-other-user" else predWithdraw cfg nd pre post a coins probe
+            | "repay" => if !frameOk nu nd pre post [b] then predfail "C08_frame" "repay-touched-other-user" else predRepay cfg nd pre post a b coins
+            | "deposit" => if !frameOk nu nd pre post [a] then predfail "C08_frame" "deposit-touched-other-user" else "ok"
+            | "liquidate" => predLiquidate cfg nu nd pre post a b aucs
+            | _ => "ok"
+        if implPred.startsWith "PREDFAIL" then implPred
+        -- (1) model vs implementation
+        else if resS res != result then mismatch "result" (resS res) result
         else if syncedModel nu nd pre != spre then mismatch "synced-queries" (syncedModel nu nd pre) spre
         else if kind == "begin" && result == "panic" then
           predfail "C08_accrue_no_panic" (if (List.range nd).any (fun d => pre.borrowed d != 0 && pre.cash d + pre.borrowed d - pre.reserves d == 0)
@@ -283,23 +300,9 @@ def handle : Handler
           let cmp := firstDiff (comps nu nd s') (postS.splitOn "|")
           if cmp != "ok" then cmp
           else if showAucs s'.aucs != aucs then mismatch "aucs" (showAucs s'.aucs) aucs
-          else
-          match st? postS with
-          | none => badInput "post"
-          | some post =>
-            -- (2) predicates on the implementation's observation
-            match kind with
-            | "begin" => predBegin nd pre post spre spost
-            | "borrow" => if !frameOk nu nd pre post [a] then predfail "C08_frame" "borrow-touched-other-user" else predBorrow cfg nd post a coins probe
-            | "withdraw" => if !frameOk nu nd pre post [a] then predfail "C08_frame" "withdraw-touched-other-user" else predWithdraw cfg nd pre post a coins probe
-            | "repay" => if !frameOk nu nd pre post [b] then predfail "C08_frame" "repay-touched-other-user" else predRepay cfg nd pre post a b coins
-            | "deposit" => if !frameOk nu nd pre post [a] then predfail "C08_frame" "deposit-touched-other-user" else "ok"
-            | "liquidate" => predLiquidate cfg nu nd pre post a b aucs
-            | _ => "ok"
-        | _ =>
-          -- a refused liquidation of a position that the valuation puts outside the range is reported by the
-          -- correspondence (result codes agree); nothing else to check on failures
-          "ok"
+          else if (st? postS).isNone then badInput "post"
+          else implPred
+        | _ => "ok"
     | _, _, _, _, _ => badInput "parse"
   | _ => badInput "arity"
 
